@@ -55,6 +55,10 @@ theorem annotC_map_snd {σ} (g : Rng σ) (ms : MacState × σ) (evs : List EvC) 
   rw [List.map_snd_zip]
   rw [limitsC_length]; exact Nat.le_refl _
 
+theorem annotC_cons {σ} (g : Rng σ) (ms ms1 : MacState × σ) (ev : EvC) (rest : List EvC) (o : OutC)
+    (hstep : stepC g ms ev = .ok (ms1, o)) : annotC g ms (ev :: rest) = (rxcMp ms.1, ev) :: annotC g ms1 rest := by
+  simp only [annotC, limitsC, hstep, List.zip_cons_cons]
+
 /-- `t` is the annotated trace of a run of the extended history model from `ms` to `ms'` -/
 def ChainC {σ} (g : Rng σ) : MacState × σ → List (EvL × OutC) → MacState × σ → Prop
   | ms, [], ms' => ms' = ms
